@@ -71,7 +71,8 @@ def execute(case):
         """Kernel facts at the instant the stop-type request completed."""
         cmd, props = tracked[req.idx]
         k.apply_due()
-        targets = [props["name"]] if "name" in props else list(names)
+        targets = [props["name"]] if props.get("name") in names \
+            else list(names)
         snap = {"t": w.loop.time(), "targets": {}, "nspawn": len(k.spawn_log),
                 "overtaken": bool(later_starter(req)) and cmd != 'quit'}
         ndeaths = sent_deaths[req.idx]
@@ -226,7 +227,8 @@ def execute(case):
             cmd, props = op[1], op[2]
             req = h_.reqs[i]
             if cmd in STARTERS:
-                targets = [props["name"]] if "name" in props else names
+                targets = [props["name"]] if props.get("name") in names \
+                    else names
                 for n_ in targets:
                     stopped_since.pop(n_, None)
             if cmd == 'rm':
@@ -403,6 +405,11 @@ def _strategy():
             req('stop', st.fixed_dictionaries(
                 {"name": name, "match": st.just("simple"), "waiting": wt})),
             req('stop', st.fixed_dictionaries({"waiting": wt})),
+            req('stop', st.fixed_dictionaries(
+                {"name": st.sampled_from(["w*", "W?"]), "waiting": wt})),
+            req('stop', st.fixed_dictionaries(
+                {"name": st.just("w[0-9]+"), "match": st.just("regex"),
+                 "waiting": wt})),
             req('restart', st.fixed_dictionaries(
                 {"name": name, "match": st.just("simple"), "waiting": wt})),
             req('rm', st.fixed_dictionaries({"name": name, "waiting": wt})),
